@@ -83,6 +83,8 @@ func vh_C05_calls()  { vFormatOpaque(true); env := vEvalEnv(0); vC05Run(env, vPr
 // are not swallowed into a successful result).
 // vC05BadForm: a malformed nested special form (or, kind 3.., a form that
 // fails at run time) at one of the evaluated positions of a special form.
+var vC05LastPos int
+
 func vC05BadForm(env *Zlisp, runtimeToo bool) Sexp {
 	e := env
 	s := func(n string) Sexp { return vS(e, n) }
@@ -111,7 +113,8 @@ func vC05BadForm(env *Zlisp, runtimeToo bool) Sexp {
 	lt := vL(s("<"), s("i"), vI(1))
 	inc := vL(s("set"), s("i"), vL(s("+"), s("i"), vI(1)))
 	var f Sexp
-	switch vChoice("pos", 24) {
+	vC05LastPos = vChoice("pos", 24)
+	switch vC05LastPos {
 	case 0:
 		f = vL(s("and"), ok, bad)
 	case 1:
@@ -181,6 +184,43 @@ func vh_C05_compile() {
 	r3, err3, p3 := vEval(env, vL(vS(env, "+"), vI(1), vI(2)))
 	vAssert(!p3 && err3 == nil && vrMatch(r3, vrVal{k: vrInt, i: 3}), "compile-usable-afterwards")
 	vReach("compile")
+}
+
+// vh_C05_definition: the same malformed forms inside the body of a function
+// that is defined but never called: the definition itself must fail (the
+// body is compiled when the function is defined), the name must stay
+// unbound, and the interpreter is at rest.  An error that only shows up when
+// the function is called later was swallowed at definition time.
+func vh_C05_definition() {
+	vFormatOpaque(true)
+	env := vEvalEnv(0)
+	f := vC05BadForm(env, false)
+	switch vC05LastPos {
+	case 11, 12, 20, 21, 22, 23:
+		vDone() // operands of calls, nested definitions, macro bodies and array literals are compiled when they run, by design
+	}
+	s := func(n string) Sexp { return vS(env, n) }
+	var def Sexp
+	switch vChoice("definer", 3) {
+	case 0:
+		def = vL(s("defn"), s("wrapped"), vA(env), f)
+	case 1:
+		def = vL(s("def"), s("wrapped"), vL(s("fn"), vA(env), f))
+	default:
+		def = vL(s("defn"), s("wrapped"), vA(env, s("u")), vL(s("let"), vA(env, s("w"), s("u")), f, s("w")))
+	}
+	_, err, panicked := vEval(env, def)
+	vAssert(!panicked, "definition-no-panic")
+	if panicked {
+		return
+	}
+	vAssert(err != nil, "definition-with-a-malformed-body-is-rejected")
+	vC04AtRest(env, "definition-after-failure")
+	_, err2, p2 := vEval(env, s("wrapped"))
+	vAssert(!p2 && err2 != nil, "rejected-definition-binds-nothing")
+	r3, err3, p3 := vEval(env, vL(vS(env, "+"), vI(1), vI(2)))
+	vAssert(!p3 && err3 == nil && vrMatch(r3, vrVal{k: vrInt, i: 3}), "definition-usable-afterwards")
+	vReach("definition")
 }
 
 // parse-time failures: a text that fails to parse (unfinished form, bad
